@@ -36,6 +36,51 @@ def run(ctx):
     r_ops, w_ops = cachesys.band_workload(ctx.rng)
     expl.append((dict(strategy=st, max=20, flow=True, lag=0, coarse=True), r_ops, w_ops, 0, ctx.pick(3, 12), 2))
   cachecheck.run_plan(ctx, 'C02', models, sims, expl)
+  same_series_two_syntaxes(ctx)
+
+
+def same_series_two_syntaxes(ctx):
+  """the datapoints of ONE series arrive under different spellings of its name (tag order, carbon / OpenMetrics syntax)
+  through the real CacheFeedingProcessor: one cache entry, last value per timestamp wins, size = datapoints held"""
+  from . import cachesys
+  mods = cachesys.Modules(ctx.scratch)
+  s = mods.settings
+  s['MAX_CACHE_SIZE'] = float('inf')
+  s['CACHE_SIZE_HARD_MAX'] = float('inf')
+  s['CACHE_SIZE_LOW_WATERMARK'] = float('inf')
+  s['CACHE_WRITE_STRATEGY'] = 'sorted'
+  rng = ctx.rng
+  for k in range(ctx.pick(20, 200)):
+    tags = [(t, rng.choice(['1', 'x', 'a=b'])) for t in rng.sample(['dc', 'host', 'az', 'k'], rng.randint(1, 3))]
+    base = rng.choice(['cpu.load', 'm', 'a.b.c'])
+    spellings = []
+    for _ in range(rng.randint(2, 4)):
+      tg = list(tags)
+      rng.shuffle(tg)
+      if rng.random() < 0.5:
+        spellings.append(base + ''.join(';%s=%s' % kv for kv in tg))
+      else:
+        spellings.append(base + '{' + ','.join('%s="%s"' % kv for kv in tg) + '}')
+    mods.cache._Cache = None
+    proc = mods.cache.CacheFeedingProcessor()
+    cache = mods.cache.MetricCache()
+    expect = {}
+    vid = 0
+    for sp in spellings:
+      for ts in rng.sample([1, 2, 3], rng.randint(1, 2)):
+        vid += 1
+        list(proc.process(sp, (float(ts), float(vid))))
+        expect[float(ts)] = float(vid)
+    ctx.evaluations += 1
+    ctx.traces += 1
+    held = {m: dict(d) for m, d in cache.items()}
+    ok = len(held) == 1 and list(held.values())[0] == expect and cache.size == len(expect)
+    mods.cache._Cache = None
+    if not ok:
+      ctx.violation('the datapoints of one tagged series, sent under different spellings of its name, are not one cache entry holding the last '
+                    'value per timestamp with an exact size: %r (size %r), expected one entry %r' % (held, cache.size, expect),
+                    dict(spellings=spellings, cache=repr(held), size=cache.size, expected=repr(expect)), signature='series-split')
+      break
 
 
 def replay(ctx, rp):
